@@ -1,11 +1,14 @@
 HOOK_COMMITS = ["27ad88b", "955c941", "4436111", "27d3bdc", "cfd1fa3", "16566ab", "69a0f58", "1bdaa91", "ff29c2d", "bd5f6db", "8b6ad29", "f064c7d", "70c5feb", "ba84928", "b43f282"]
 NOTES = ("Machine-checked proof in Lean 4 over a hand-written executable model of go-jsonrpc, tied to /repo on every run by "
-         "(a) facts regenerated from the Go source with obligations re-checked by Lean and (b) a correspondence harness that "
+         "(a) facts regenerated from the Go source with obligations re-checked by Lean, (a') a Go-to-MiniGo translator that regenerates one "
+         "program per library function, with translation theorems (regenerated program = model, for all inputs) re-proved on every run for "
+         "fifteen functions (DESIGN 4.1a), and (b) a correspondence harness that "
          "runs the real library and the model's executable definitions on the same cases / replays implementation traces "
          "through the model. See DESIGN.md.")
 
 TB = ("Trusted: Lean 4.33.0 kernel (axioms propext, Classical.choice, Quot.sound only; audited per theorem each run), the "
-      "reading of the property as theorem statements and monitors, the fact extractor and its expectations, the correspondence "
+      "reading of the property as theorem statements and monitors, the fact extractor and its expectations, the Go-to-MiniGo translator, "
+      "the MiniGo interpreter and the extern semantics of the translation theorems, the correspondence "
       "harness (sampled coverage bounds the assurance that the model is the code). Modelled, not verified: Go runtime and "
       "scheduler, encoding/json, net/http, gorilla/websocket, TCP.")
 
@@ -25,7 +28,7 @@ CHECKS = [
           "from the same grammar sent over a raw WebSocket connection. Fourth round: bodies with bytes after the first JSON value (F19), failing notifications over HTTP with a strict monitor and theorem C09_http_notification_silent (F21), the largest size limit (F22), an endpoint without handlers (C09_ws_no_handler, F35).",
   "design_ref": "DESIGN.md §6 C09",
   "note": TB + " encoding/json is an oracle parameter of the model (per-element decodability is computed by the harness with the real decoder).",
-  "technique": "Lean 4 theorems (induction over the batch fold, case analysis of handle) + regenerated facts + differential correspondence"},
+  "technique": "Lean 4 theorems + translation theorems over the regenerated MiniGo programs (Wire, BatchWriter, HandleFrame) (induction over the batch fold, case analysis of handle) + regenerated facts + differential correspondence"},
  {"property_id": "C12",
   "text": "Theorems over the model of NewMethodNameFormatter/register/handle: a key of the method table always wins over an alias, "
           "the most recent registration under a key wins, alias fallback is a single hop through the method table, anything else is "
@@ -36,7 +39,7 @@ CHECKS = [
           " Also: a method with several positional params and a mismatch at every position; alias chains. Fourth round: method names starting with a letter outside ASCII under every formatter, over http and ws (F29).",
   "design_ref": "DESIGN.md §6 C12",
   "note": TB + " Method names are assumed to start with an ASCII byte (lower-first slices one byte).",
-  "technique": "Lean 4 theorems (list/lookup induction, injectivity of the formatter) + regenerated facts + exhaustive differential correspondence"},
+  "technique": "Lean 4 theorems + translation theorems over the regenerated MiniGo programs (Naming) (list/lookup induction, injectivity of the formatter) + regenerated facts + exhaustive differential correspondence"},
  {"property_id": "C19",
   "text": "Theorems over the model of HasPerm/PermissionedProxy/auth.Handler for all permission lists and all strings: the wrapped "
           "method is invoked iff the required permission is in the effective set (attached, even if empty, else defaults), otherwise "
@@ -46,7 +49,7 @@ CHECKS = [
           " Also: permissions outside validPerms and histories in which the verifier's answer for a token changes between requests to one handler value. Fourth round: token-less requests with form-encoded bodies (attached set, status, and the body the next handler reads; F24), permissioned methods without a leading context (F25).",
   "design_ref": "DESIGN.md §6 C19",
   "note": TB,
-  "technique": "Lean 4 theorems (decision logic stated outright) + exhaustive differential correspondence"},
+  "technique": "Lean 4 theorems + translation theorems over the regenerated MiniGo programs (Auth, AuthHTTP) (decision logic stated outright) + exhaustive differential correspondence"},
  {"property_id": "C10",
   "text": "Theorems over the frame executor modelled as a total function with explicit crash outcomes (every slice index and map-key "
           "hash is a possible crash): for every endpoint state and every frame a peer can send (control methods with any params, ids of "
@@ -58,7 +61,7 @@ CHECKS = [
           " Also: the size boundary delivered with a declared length, chunked and through HandleRequest; interpreted facts for the handleFrame switch and normalizeID.",
   "design_ref": "DESIGN.md §6 C10",
   "note": TB + " Byte-level mutations are sampled, not proved; 'wedge' is observed as the same and other connections still answering.",
-  "technique": "Lean 4 theorems (total executor with crash outcomes, induction over frame sequences) + regenerated skeleton facts + subprocess differential correspondence"},
+  "technique": "Lean 4 theorems + translation theorems over the regenerated MiniGo programs (NormalizeID, CancelCtx, ChanMessage, ChanClose, HandleFrame) (total executor with crash outcomes, induction over frame sequences) + regenerated skeleton facts + subprocess differential correspondence"},
  {"property_id": "C05",
   "text": "Theorems over three models. Jrpc.Backoff: for all minDelay <= maxDelay, all attempts and all jitters in [0,1) the redial/retry delay lies in "
           "[minDelay, maxDelay] and is positive. Jrpc.Redial (timed LTS of the redial goroutine, one event per hook site): every dial is at least "
@@ -74,7 +77,7 @@ CHECKS = [
           "whose redial events with hook times are replayed through Jrpc.Redial and whose retry attempts are compared with retryLoop.",
   "design_ref": "DESIGN.md §6 C05",
   "note": TB + " Float arithmetic is modelled exactly; only interval membership with a stated slack is compared.",
-  "technique": "Lean 4 theorems (arithmetic over exact rationals; timed invariant of the redial LTS by induction over events; induction over the retry loop) + regenerated skeleton facts + differential correspondence + trace inclusion of reconnect scenarios"},
+  "technique": "Lean 4 theorems + translation theorems over the regenerated MiniGo programs (Backoff, Options) (arithmetic over exact rationals; timed invariant of the redial LTS by induction over events; induction over the retry loop) + regenerated skeleton facts + differential correspondence + trace inclusion of reconnect scenarios"},
  {"property_id": "C11",
   "text": "Theorems over the model of createError / Errors registry / JSONRPCError.val / processResponse, for every application behaviour "
           "(error types' methods are parameters) and every pair of registration tables: caller error nil iff handler error nil; non-nil "
@@ -86,7 +89,7 @@ CHECKS = [
           " Also: wrapping errors (Unwrap chains), one type under two codes, and the monitor clause 'registered under the same code on both sides gives that type'.",
   "design_ref": "DESIGN.md §6 C11",
   "note": TB,
-  "technique": "Lean 4 theorems (case analysis over capabilities and tables, parametric in the application) + regenerated skeleton facts + differential correspondence"},
+  "technique": "Lean 4 theorems + translation theorems over the regenerated MiniGo programs (Wire) (case analysis over capabilities and tables, parametric in the application) + regenerated skeleton facts + differential correspondence"},
  {"property_id": "C13",
   "text": "Theorems: a handler that panics after the gates yields an error response for its own id (handle is total, doCall's recover "
           "is the model's `panics` outcome); executing any call frame changes nothing of the endpoint but the list of started calls and "
@@ -110,7 +113,7 @@ CHECKS = [
           " Also: a concurrent phase (12/24 goroutines per transport calling through one client with arguments only they use) and result types that merely have an Error method.",
   "design_ref": "DESIGN.md §6 C01",
   "note": TB + " encoding/json and reflect are parameters/trusted; the model executes on argument indices, value fidelity is checked by the harness oracle.",
-  "technique": "Lean 4 theorems (structural induction over argument lists, parametric codec) + regenerated skeleton facts + differential correspondence"},
+  "technique": "Lean 4 theorems + translation theorems over the regenerated MiniGo programs (Naming, Outs) (structural induction over argument lists, parametric codec) + regenerated skeleton facts + differential correspondence"},
  {"property_id": "C20",
   "text": "Theorems over the model of waitReadCloser and the rendezvous table: for every read/close sequence of the handler and every "
           "chunking of the body the bytes handed over followed by the unread rest are exactly the caller's bytes; end-of-file is reported "
@@ -122,7 +125,7 @@ CHECKS = [
           " Also: reader sources that are files or section readers positioned after a consumed header, and pipes.",
   "design_ref": "DESIGN.md §6 C20",
   "note": TB + " The table's arrival interleavings are proved, not observed (no hook in httpio); scenarios force both orders.",
-  "technique": "Lean 4 theorems (induction over read/close sequences and arrival events) + regenerated skeleton facts + trace replay of real reads through the model"},
+  "technique": "Lean 4 theorems + translation theorems over the regenerated MiniGo programs (WRC) (induction over read/close sequences and arrival events) + regenerated skeleton facts + trace replay of real reads through the model"},
  {"property_id": "C14",
   "text": "Theorems over the write-lock model (every writer site is begin; chunk*; end, begin enabled only when nobody holds the lock): for "
           "every interleaving of any number of writers the wire is a concatenation of complete messages (no chunk of another message between "
@@ -150,7 +153,7 @@ CHECKS = [
           " Also: Jrpc.Forwarder models the two parallel slices of handleOutChans (alignment invariant; every value and close carries the id announced for its handler channel) with the forwarder's hook events replayed; streams of non-scalar elements compared after the stream ended.",
   "design_ref": "DESIGN.md §6 C07",
   "note": TB + " PARTIAL: liveness ('arrive', 'blocks neither') is proved in safety form and observed with time-outs.",
-  "technique": "Lean 4 theorems (FIFO-with-a-cut invariant by induction over events, refinement to a queue) + regenerated skeleton facts + hook-trace inclusion"},
+  "technique": "Lean 4 theorems + translation theorems over the regenerated MiniGo programs (ChanMessage, ChanClose) (FIFO-with-a-cut invariant by induction over events, refinement to a queue) + regenerated skeleton facts + hook-trace inclusion"},
  {"property_id": "C08",
   "text": "Theorems over the same model with the four termination causes as events: in every reachable state what the caller received is a "
           "prefix of what the handler sent; the close of the caller channel is enabled at most once, closed stays closed and nothing is "
@@ -162,7 +165,7 @@ CHECKS = [
           " Also: Jrpc.Forwarder (as C07) and Jrpc.Sweep (order of the sweeps on the exit and reconnect paths); a stale subscription context cancelled after a reconnect must not touch the subscription that reuses its channel id. Fourth round: a subscription through a proxy field without a context parameter, client in a child process (F23).",
   "design_ref": "DESIGN.md §6 C08",
   "note": TB + " PARTIAL: 'eventually closed' = enabledness + fairness; observed with time-outs. F12 (sink registered after the sweep) is decided by the C03 scenarios: the subscribing call then fails and no channel is handed out.",
-  "technique": "Lean 4 theorems (prefix invariant, close-once, crash-freedom by induction over events) + regenerated skeleton facts + hook-trace inclusion"},
+  "technique": "Lean 4 theorems + translation theorems over the regenerated MiniGo programs (ChanMessage, ChanClose) (prefix invariant, close-once, crash-freedom by induction over events) + regenerated skeleton facts + hook-trace inclusion"},
  {"property_id": "C02",
   "text": "Theorems over the correlation model (callers, main loop, frame executor, sweep, reconnect, exit; one event per hook site; ~35 "
           "invariant clauses preserved by all 24 events): whatever a caller takes from its ready channel is the connection error, its own "
@@ -173,7 +176,7 @@ CHECKS = [
           " Also: concurrent calls alternate between two generated functions (ids are per client); interpreted facts for normalizeID and the id counter. Fourth round: calls whose request cannot be written (raw params that are not JSON, F27) and whose result cannot be encoded (F26) must still return.",
   "design_ref": "DESIGN.md §6 C02",
   "note": TB + " Stated bound: ids are distinct below 2^53 calls per client.",
-  "technique": "Lean 4 theorems (invariants by induction over events, grind-assisted) + regenerated skeleton facts + hook-trace inclusion"},
+  "technique": "Lean 4 theorems + translation theorems over the regenerated MiniGo programs (NormalizeID) (invariants by induction over events, grind-assisted) + regenerated skeleton facts + hook-trace inclusion"},
  {"property_id": "C03",
   "text": "Theorems: in every reachable state an id-bearing attempt that was taken and has no answer yet is being handled by the main loop, "
           "or registered in inflight under its own id, or held by the frame executor — there is no other place (ownership); during the "
@@ -194,7 +197,7 @@ CHECKS = [
           " Also: an untagged subscription whose response is lost must not be re-sent; HTTP calls whose connection dies after execution are executed once; an untagged declaration next to a retry-tagged one of the same method is not retried; HTTP notifications execute exactly once.",
   "design_ref": "DESIGN.md §6 C04",
   "note": TB + " A retry-tagged call is a sequence of attempts (contrast case); the regenerated retry conjuncts pin when a new attempt starts.",
-  "technique": "Lean 4 theorems (counting invariants) + regenerated facts + hook-trace inclusion + wire counts"},
+  "technique": "Lean 4 theorems + translation theorems over the regenerated MiniGo programs (Backoff) (counting invariants) + regenerated facts + hook-trace inclusion + wire counts"},
  {"property_id": "C18",
   "text": "Theorems: no step of the exit path can be disabled by a caller, the frame executor or the peer (the sweep's sends are non-blocking, "
           "clearing is enabled once every entry was visited); once exiting is closed nothing is registered or can be registered or taken, every "
@@ -217,7 +220,7 @@ CHECKS = [
           " Also: subscriptions cancelled while their handler is still setting up, ids of every JSON type from a foreign peer, subscriptions ended by the server next to open ones; a reverse call on a reconnected client cancelled after a handler of the previous connection with the same request id returned (Jrpc.Epoch: Epoch_cancel_reaches, Epoch_cancel_only; F18). Fourth round: the context given to NewClient cancelled with a call in flight (F32).",
   "design_ref": "DESIGN.md §6 C06",
   "note": TB + " HTTP cancellation is net/http's; honest-peer hypothesis for 'only if the caller cancelled'.",
-  "technique": "Lean 4 theorems (frame lemma + cause invariant by induction over events) + regenerated skeleton facts + hook-trace inclusion"},
+  "technique": "Lean 4 theorems + translation theorems over the regenerated MiniGo programs (NormalizeID, CancelCtx) (frame lemma + cause invariant by induction over events) + regenerated skeleton facts + hook-trace inclusion"},
  {"property_id": "C15",
   "text": "Theorems: once the connection has ended every started handler sees its context cancelled (contexts derive from the connection's; "
           "the sweep additionally cancels every registered call), the end is permanent and no handler starts afterwards; over the goroutine "
@@ -249,7 +252,7 @@ CHECKS = [
           "previous connection returns while the same id is pending on the new one), its serving-side trace replayed through op epoch (F18). Fourth round: a reverse subscription after a loss during which the old producer emitted (F20), a shared non-default formatter without aliases (F28), a client without handlers (F35), a large reverse request still queued when its connection ended (F18b).",
   "design_ref": "DESIGN.md §6 C16",
   "note": TB,
-  "technique": "Lean 4 theorems (frame/projection lemma over a product of LTSs, corollaries of the Corr invariants) + regenerated skeleton facts + hook-trace inclusion per endpoint + scenario monitors"},
+  "technique": "Lean 4 theorems + translation theorems over the regenerated MiniGo programs (Naming) (frame/projection lemma over a product of LTSs, corollaries of the Corr invariants) + regenerated skeleton facts + hook-trace inclusion per endpoint + scenario monitors"},
  {"property_id": "C17",
   "text": "Theorems over a timed model of the two detectors of one connection (read deadline, main-loop idle timer) for every timeout T, "
           "activity gap G and local latency E and every interleaving of activity / renewal / re-arm / local traffic / time: if G + E < T then on "
